@@ -73,6 +73,13 @@ MUTANTS = [
     ("error-code-sets-hashed-unsorted", "C10", "detopts", "mypy/options.py", "                val = sorted([code.code for code in val])", "                val = [code.code for code in val]", "violation"),
     ("typestate-protocol-deps-not-reset", "C10", "globals", "mypy/typestate.py", "    type_state.reset_all_subtype_caches()\n    type_state.reset_protocol_deps()\n    TypeVarId.next_raw_id = 1", "    type_state.reset_all_subtype_caches()\n    TypeVarId.next_raw_id = 1", "violation"),
     ("severity-by-substring-anywhere", "C13", "has_severity", "mypy/util.py", "    other_pos = message.find(other_marker)\n    return other_pos < 0 or pos < other_pos", "    return True", "violation"),
+    ("removed-submodule-any-ancestor", "C02", "exist_removed", "mypy/build.py", '        direct_ancestor, _ = dep.rsplit(".", maxsplit=1)', '        direct_ancestor, _ = dep.split(".", maxsplit=1)', "violation"),
+    ("removed-submodule-sources-not-exempt", "C02", "exist_removed", "mypy/build.py", "        if dep in manager.source_set.source_modules:\n            # We still know it is definitely a module.\n            continue\n        direct_ancestor", "        direct_ancestor", "violation"),
+    ("dep-import-options-field-dropped", "C09", "dep_import", "mypy/options.py", "        write_bool(buf, self.follow_imports_for_stubs)\n        return buf.getvalue()", "        return buf.getvalue()", "violation"),
+    ("typeinfo-slots-unsorted", "C11", "writers", "mypy/nodes.py", "            write_str_list(data, sorted(self.slots))", "            write_str_list(data, list(self.slots))", "violation"),
+    ("tagged-multiply-builtin-overflow-unsigned", "C15", "tagged.Multiply", "mypyc/lib-rt/CPy.h", "        if (!CPyTagged_IsMultiplyOverflow(left, right)) {\n            return left * CPyTagged_ShortAsSsize_t(right);\n        }", "        CPyTagged product;\n        if (!__builtin_mul_overflow(left, CPyTagged_ShortAsSsize_t(right), &product)) {\n            return product;\n        }", "violation"),
+    ("tagged-multiply-builtin-overflow-signed-harmless", "C15", "tagged.Multiply", "mypyc/lib-rt/CPy.h", "        if (!CPyTagged_IsMultiplyOverflow(left, right)) {\n            return left * CPyTagged_ShortAsSsize_t(right);\n        }", "        Py_ssize_t product;\n        if (!__builtin_mul_overflow((Py_ssize_t)left, CPyTagged_ShortAsSsize_t(right), &product)) {\n            return (CPyTagged)product;\n        }", "pass"),
+    ("write-cache-restats-source", "C02", "proto.write_cache", "mypy/build.py", "    st = manager.get_stat(path)\n    if st is None:\n        manager.log(f\"Cannot get stat for {path}\")", "    try:\n        st = os.stat(path)\n    except OSError:\n        st = None\n    if st is None:\n        manager.log(f\"Cannot get stat for {path}\")", "violation"),
     ("enabled-parent-check-dropped", "C13", "is_error_code_enabled", "mypy/errors.py", "elif error_code.sub_code_of is not None and error_code.sub_code_of in current_mod_disabled:\n            return False", "elif error_code.sub_code_of is not None and error_code.sub_code_of in current_mod_enabled:\n            return False", "violation"),
 ]
 
